@@ -40,3 +40,9 @@ Definition set_add (s : list Z) (x : Z) : list Z := if zmem x s then s else s ++
 Definition zrange (n : Z) : list Z := map Z.of_nat (seq 0 (Z.to_nat n)).
 (* enumerate(l) *)
 Definition enumerate_z {A : Type} (l : list A) : list (Z * A) := combine (map Z.of_nat (seq 0 (length l))) l.
+
+(* l[i] on a list: a negative index counts from the end; out of range is an IndexError (Err 98) *)
+Definition list_get {A : Type} (l : list A) (i : Z) : result A :=
+  let j := if i <? 0 then i + Z.of_nat (length l) else i in
+  if j <? 0 then Err 98
+  else match nth_error l (Z.to_nat j) with Some a => Ok a | None => Err 98 end.
